@@ -48,11 +48,11 @@ type MVal struct {
 	N *Node
 }
 
-func mNil() MVal             { return MVal{K: KNil} }
-func mBool(b bool) MVal      { return MVal{K: KBool, B: b} }
-func mInt(i int) MVal        { return MVal{K: KInt, I: i} }
-func mFloat(f float64) MVal  { return MVal{K: KFloat, F: f} }
-func mString(s string) MVal  { return MVal{K: KString, S: s} }
+func mNil() MVal            { return MVal{K: KNil} }
+func mBool(b bool) MVal     { return MVal{K: KBool, B: b} }
+func mInt(i int) MVal       { return MVal{K: KInt, I: i} }
+func mFloat(f float64) MVal { return MVal{K: KFloat, F: f} }
+func mString(s string) MVal { return MVal{K: KString, S: s} }
 func mRef(n *Node) MVal {
 	if n.IsObj {
 		return MVal{K: KObj, N: n}
@@ -213,43 +213,45 @@ func (n *Node) render(depth int) string {
 // Native is a plain Go value (slice or map tree) that the harness holds and may modify:
 // an export of a container or the source a container was built from.
 type Native struct {
-	ID    int
-	Name  string
-	Live  any // what the harness holds (the very value the library returned / was given)
-	Model any // independent deep copy, modified in step with Live by harness mutations only
-	Op    string
-	Deep  bool // produced by NativeSlice/NativeDict: must not contain containers
+	ID     int
+	Name   string
+	Live   any // what the harness holds (the very value the library returned / was given)
+	Model  any // independent deep copy, modified in step with Live by harness mutations only
+	Op     string
+	Deep   bool // produced by NativeSlice/NativeDict: must not contain containers
 	Frozen bool // shares structure inside itself: watched, never modified by the harness
 }
 
 // Hist is the state of one history run.
 type Hist struct {
-	d        drawer
-	prop     string
-	nodes    []*Node
-	natives  []*Native
-	byPtr    map[uintptr]*Node
-	rel      map[[2]int]string // relation between two heap citizens (node IDs; natives use negative IDs)
-	fails    []Failure
-	trace    []string
-	step     int
-	dead     bool
-	counters map[string]int
-	opSeq    uint64
-	dirty    map[int]bool // citizens the current step may legitimately change
-	curOp    string
-	curOwner []string
-	group    int
-	evals    int
-	aliased  bool
+	d             drawer
+	prop          string
+	nodes         []*Node
+	cloneTags     map[int][]int
+	cloneCalls    int
+	natives       []*Native
+	byPtr         map[uintptr]*Node
+	rel           map[[2]int]string // relation between two heap citizens (node IDs; natives use negative IDs)
+	fails         []Failure
+	trace         []string
+	step          int
+	dead          bool
+	counters      map[string]int
+	opSeq         uint64
+	dirty         map[int]bool // citizens the current step may legitimately change
+	curOp         string
+	curOwner      []string
+	group         int
+	evals         int
+	aliased       bool
 	mutAfterAlias bool
-	nextID   int
-	derivedOK bool
-	maxSlots int
-	maxNodes int
-	big      bool
-	last      *Node // container the previous step worked on (pick locality)
-	sizeClass int // 0 small, 1 big (48 slots), 2 huge list first, 3 deep chain first
+	nextID        int
+	derivedOK     bool
+	maxSlots      int
+	maxNodes      int
+	big           bool
+	last          *Node // container the previous step worked on (pick locality)
+	sizeClass     int   // 0 small, 1 big (48 slots), 2 huge list first, 3 deep chain first
 }
 
 func (h *Hist) tracef(format string, a ...any) {
@@ -300,6 +302,21 @@ func (h *Hist) relate(a, b int, what string) {
 		h.rel[[2]int{a, b}] = what
 		h.rel[[2]int{b, a}] = what
 	}
+}
+
+// cloneRelated: one of the two is reachable from a Clone result and the other from that call's source.
+func (h *Hist) cloneRelated(a, b int) bool {
+	if a == b {
+		return false
+	}
+	for _, t := range h.cloneTags[a] {
+		for _, u := range h.cloneTags[b] {
+			if t^1 == u {
+				return true
+			}
+		}
+	}
+	return false
 }
 
 // reach returns the nodes reachable from n (n included).
@@ -683,6 +700,9 @@ func (h *Hist) frameOwners(id int) ([]string, string) {
 	}
 	sort.Ints(ids)
 	for _, d := range ids {
+		if h.cloneRelated(id, d) {
+			return []string{"C08"}, "clone"
+		}
 		rel, ok := h.rel[[2]int{id, d}]
 		if !ok {
 			continue
